@@ -67,6 +67,19 @@ type c15Sub struct {
 	acc   int    // 0 = access A, 1 = access B
 }
 
+// c15Login maps the tokens of the alphabet to logins that are legal file names but hard on the account file format.
+func c15Login(tok string) string {
+	switch tok {
+	case "LONG":
+		return c15LongLogin
+	case "LEADNL":
+		return "\nb" // starts with a line feed
+	case "TABNL":
+		return "\tq\nr" // starts with a tab and contains a line feed
+	}
+	return tok
+}
+
 func parseSub(s string) c15Sub {
 	p := strings.Split(s, ",")
 	sub := c15Sub{kind: p[0], login: p[1]}
@@ -94,9 +107,7 @@ func parseSub(s string) c15Sub {
 	if sub.pw == "W" {
 		sub.pw = c15Pw73
 	}
-	if sub.login == "LONG" {
-		sub.login = c15LongLogin
-	}
+	sub.login = c15Login(sub.login)
 	return sub
 }
 
@@ -198,10 +209,7 @@ func (x *c15World) apply(op string) bool {
 	switch p[0] {
 	case "new":
 		q := strings.Split(p[1], ",")
-		s := c15Sub{kind: "create", login: q[0], pw: q[1]}
-		if s.login == "LONG" {
-			s.login = c15LongLogin
-		}
+		s := c15Sub{kind: "create", login: c15Login(q[0]), pw: q[1]}
 		if !x.m.enabled(s) {
 			return false
 		}
@@ -233,10 +241,7 @@ func (x *c15World) apply(op string) bool {
 		x.adm.Req(ref.TSetUser, fs...)
 		x.m.applySub(s)
 	case "del":
-		s := c15Sub{kind: "delete", login: p[1]}
-		if s.login == "LONG" {
-			s.login = c15LongLogin
-		}
+		s := c15Sub{kind: "delete", login: c15Login(p[1])}
 		if !x.m.enabled(s) {
 			return false
 		}
@@ -535,6 +540,7 @@ func c15Alphabet(thorough bool) []string {
 		a = append(a, "batch:create,"+l+",p", "batch:modify,"+l+",MARK,B", "batch:modify,"+l+",q", "batch:modify,"+l+",-", "batch:delete,"+l)
 	}
 	a = append(a, "new:LONG,p", "del:LONG", "set:LONG,q")
+	a = append(a, "new:LEADNL,p", "new:TABNL,p", "set:LEADNL,q", "del:TABNL", "batch:create,TABNL,p")
 	a = append(a, "new:a,W", "set:a,W", "set:a,V", "batch:modify,a,W", "batch:create,b,W")
 	a = append(a, "batch:rename,a,b", "batch:rename,b,a", "batch:rename,a,c d", "batch:rename,c d,a")
 	a = append(a,
